@@ -37,7 +37,7 @@ pub fn prop() -> Prop {
         stub: &["transport", "glue", "verifier random source", "item-forging adversary"],
         independent: &["single-item VerifyingKey::verify as the reference semantics"],
         ref_sample: |_| 0,
-        required_probes: &["batch_all_valid_multi", "empty_batch_rejected", "invalid_wrong_message", "invalid_wrong_key", "invalid_altered_response", "invalid_altered_commitment", "cancel_pair_rejected", "batch_size_ge_32", "frost_signature_in_batch", "invalid_first_position", "invalid_last_position", "batch_size_ge_216"],
+        required_probes: &["all_items_structured", "queue_history", "batch_all_valid_multi", "empty_batch_rejected", "invalid_wrong_message", "invalid_wrong_key", "invalid_altered_response", "invalid_altered_commitment", "cancel_pair_rejected", "batch_size_ge_32", "frost_signature_in_batch", "invalid_first_position", "invalid_last_position", "batch_size_ge_216"],
         prepare: None,
     }
 }
@@ -125,6 +125,19 @@ fn alter<C: Suite>(it: &It<C>, kind: &str, p: &mut Prng, other_vk: &VerifyingKey
             }
         }
         "wrong_key" => out.vk = *other_vk,
+        "other_message" => out.msg = [b"another message ".as_ref(), &out.msg].concat(),
+        "response_zero" | "response_one" | "response_minus_one" => {
+            let sb = it.sig.serialize().ok()?;
+            let rl = sb.len() - sc_len::<C>();
+            let mut nb = sb.clone();
+            let z = match kind {
+                "response_zero" => zero::<C>(),
+                "response_one" => one::<C>(),
+                _ => neg::<C>(one::<C>()),
+            };
+            nb[rl..].copy_from_slice(&sc_bytes::<C>(&z));
+            out.sig = Signature::<C>::deserialize(&nb).ok()?;
+        }
         "altered_response" | "altered_commitment" => {
             let sb = it.sig.serialize().ok()?;
             let zl = sc_len::<C>();
@@ -251,11 +264,14 @@ fn exec_c<C: Suite>(scen: &Scenario) -> Exec {
         v.dedup();
         v
     };
-    let kinds = ["wrong_message", "wrong_key", "altered_response", "altered_commitment"];
+    let kinds = ["wrong_message", "wrong_key", "altered_response", "altered_commitment", "response_zero", "response_one", "response_minus_one"];
     for (ki, kind) in kinds.iter().enumerate() {
         for pos in &positions {
             // in big batches rotate kinds over positions to bound the cost
             if size > 16 && (pos + ki) % 2 == 1 {
+                continue;
+            }
+            if size > 64 && ki >= 4 && *pos != 0 {
                 continue;
             }
             let Some(bad) = alter::<C>(&items[*pos], kind, &mut p, &other_vk) else { continue };
@@ -288,6 +304,53 @@ fn exec_c<C: Suite>(scen: &Scenario) -> Exec {
                 }
             }
             rep.extra_shapes.push(format!("{}|{kind}|{size}|{pos}", scen.suite));
+        }
+    }
+    // EVERY item altered the same structured way (all responses zero / one / q-1): sums of structured values that random
+    // corruption never produces
+    for kind in ["response_zero", "response_one", "response_minus_one"] {
+        for s in [1usize, 2, size.min(5)] {
+            if s > size {
+                continue;
+            }
+            let b: Option<Vec<It<C>>> = items[..s].iter().map(|it| alter::<C>(it, kind, &mut p, &other_vk)).collect();
+            let Some(b) = b else { continue };
+            let expect = b.iter().all(single_ok);
+            match batch_verdict::<C>(&b, scen.seed, scen.run, &format!("all/{kind}/{s}"), &mut rep) {
+                Err(e) => return Exec::Violation(viol("C19.verifier_streams_disagree", format!("batch of {s} items all with {kind}: {e}")), rep),
+                Ok(v) if v != expect => return Exec::Violation(viol(if v { "C19.invalid_item_accepted" } else { "C19.valid_batch_rejected" }, format!("batch of {s} items ALL altered by {kind}: batch verdict {v}, conjunction of single verifications {expect}")), rep),
+                Ok(_) => rep.probe("all_items_structured"),
+            }
+        }
+    }
+    // filing history: an item that repeats an earlier item's key and signature over ANOTHER message (a replayed signature), and
+    // an exact duplicate, queued before / after the genuine one - the verdict is that of the conjunction whatever the order
+    {
+        let a = p.below(size as u64) as usize;
+        if let Some(replayed) = alter::<C>(&items[a], "other_message", &mut p, &other_vk) {
+            let rep_ok = single_ok(&replayed);
+            for (oname, b, expect) in [
+                ("genuine first, replay last", [items.clone(), vec![replayed.clone()]].concat(), rep_ok),
+                ("replay first, genuine later", [vec![replayed.clone()], items.clone()].concat(), rep_ok),
+                ("replay right after the genuine item", {
+                    let mut b = items.clone();
+                    b.insert(a + 1, replayed.clone());
+                    b
+                }, rep_ok),
+                ("exact duplicate appended", [items.clone(), vec![items[a].clone()]].concat(), true),
+                ("exact duplicate twice, adjacent", {
+                    let mut b = items.clone();
+                    b.insert(a, items[a].clone());
+                    b.insert(a, items[a].clone());
+                    b
+                }, true),
+            ] {
+                match batch_verdict::<C>(&b, scen.seed, scen.run, &format!("history/{oname}"), &mut rep) {
+                    Err(e) => return Exec::Violation(viol("C19.verifier_streams_disagree", format!("{oname}: {e}")), rep),
+                    Ok(v) if v != expect => return Exec::Violation(viol(if v { "C19.invalid_item_accepted" } else { "C19.valid_batch_rejected" }, format!("{oname} (item {a} of {size}): batch verdict {v}, conjunction of single verifications {expect}")), rep),
+                    Ok(_) => rep.probe("queue_history"),
+                }
+            }
         }
     }
     // complementary pairs: errors that cancel unless every item has its own blinder
